@@ -4,8 +4,8 @@
    associativity and commutativity of the table product, Ring). *)
 From Coq Require Import NArith Bool List Lia.
 From RS.Gen Require Import Prelude GenConsts.
-From RS.Model Require Import Field Tables Sched Codec Spec.
-From RS.Proofs Require Import FieldFacts Param Linear Scale.
+From RS.Model Require Import Field Tables Sched Codec Layout Machine Spec.
+From RS.Proofs Require Import FieldFacts Param Linear Scale MachineOps MachineLin.
 Import ListNotations.
 Local Open Scope N_scope.
 
@@ -90,3 +90,55 @@ Theorem C13_mul_additive_basis :
      (range 0 16)) (range 0 16)) [0; 1; 2; 12345; 65534; 65535] = true.
 Proof. vm_compute. reflexivity. Qed.
 Print Assumptions C13_mul_additive_basis.
+
+(* ---- through the streaming API, on bytes: what encoder OBJECTS return (any codec of the crate, any
+   engines - a different one for each of the three encoders -, recycled working space, stale memory
+   behind every position that was not written this round) ---- *)
+Theorem C13_api_xor : forall (junk : N -> N -> N -> N), (forall a b c, junk a b c < 65536) ->
+  forall (c : codec) (e1 e2 e3 : engine) (K R sb ep1 ep2 ep3 : N) (o1 o2 : list bytes),
+  validateb c K R sb = None ->
+  N.of_nat (length o1) = K -> N.of_nat (length o2) = K -> Forall (byteshard sb) o1 -> Forall (byteshard sb) o2 ->
+  forall (w1 w2 w3 : encwork) (x01 x1 x02 x2 x03 x3 : encoder) (a1 a2 a3 : bool),
+  enc_make c e1 K R sb w1 = inl (x01, a1) -> enc_add_all x01 o1 = inl x1 ->
+  enc_make c e2 K R sb w2 = inl (x02, a2) -> enc_add_all x02 o2 = inl x2 ->
+  enc_make c e3 K R sb w3 = inl (x03, a3) -> enc_add_all x03 (bxor_shards o1 o2) = inl x3 ->
+  forall j, j < R ->
+  nth (N.to_nat j) (encode_shards junk ep3 x3) [] =
+  map2 N.lxor (nth (N.to_nat j) (encode_shards junk ep1 x1) []) (nth (N.to_nat j) (encode_shards junk ep2 x2) []).
+Proof. exact ops_encode_linear. Qed.
+Print Assumptions C13_api_xor.
+
+Theorem C13_api_zero : forall (junk : N -> N -> N -> N), (forall a b c, junk a b c < 65536) ->
+  forall (c : codec) (ee : engine) (K R sb ep : N), validateb c K R sb = None ->
+  forall (w0 : encwork) (x0 x : encoder) (a0 : bool),
+  enc_make c ee K R sb w0 = inl (x0, a0) ->
+  enc_add_all x0 (repeat (repeat 0 (N.to_nat sb)) (N.to_nat K)) = inl x ->
+  forall j, j < R -> nth (N.to_nat j) (encode_shards junk ep x) [] = repeat 0 (N.to_nat sb).
+Proof. exact ops_encode_zero. Qed.
+Print Assumptions C13_api_zero.
+
+(* scale_bytes k b: every 16-bit symbol of the shard b multiplied by the field constant k *)
+Theorem C13_api_scale : forall (junk : N -> N -> N -> N), (forall a b c, junk a b c < 65536) ->
+  forall (c : codec) (e1 e2 : engine) (K R sb ep1 ep2 k : N) (o : list bytes),
+  validateb c K R sb = None -> k < 65536 ->
+  N.of_nat (length o) = K -> Forall (byteshard sb) o ->
+  forall (w1 w2 : encwork) (x01 x1 x02 x2 : encoder) (a1 a2 : bool),
+  enc_make c e1 K R sb w1 = inl (x01, a1) -> enc_add_all x01 o = inl x1 ->
+  enc_make c e2 K R sb w2 = inl (x02, a2) -> enc_add_all x02 (map (scale_bytes k) o) = inl x2 ->
+  forall j, j < R ->
+  nth (N.to_nat j) (encode_shards junk ep2 x2) [] = scale_bytes k (nth (N.to_nat j) (encode_shards junk ep1 x1) []).
+Proof. exact ops_encode_scale. Qed.
+Print Assumptions C13_api_scale.
+
+(* non-vacuity: the hypotheses are met by a concrete encoder (3 originals, 2 recovery, 4-byte shards) *)
+Example C13_api_instance :
+  let o1 := [[1; 2; 3; 4]; [5; 6; 7; 8]; [9; 10; 11; 12]] in
+  let o2 := [[255; 0; 17; 4]; [0; 0; 0; 1]; [200; 100; 50; 25]] in
+  let run o := match enc_make CHigh NoSimd 3 2 4 encwork_new with
+               | inl (x0, _) => match enc_add_all x0 o with inl x => Some (encode_shards (fun _ _ _ => 7) 0 x) | inr _ => None end
+               | inr _ => None end in
+  match run o1, run o2, run (bxor_shards o1 o2) with
+  | Some r1, Some r2, Some r3 => leq (concat r3) (concat (map2 (map2 N.lxor) r1 r2)) && negb (leq (concat r3) (repeat 0 8))
+  | _, _, _ => false
+  end = true.
+Proof. vm_compute. reflexivity. Qed.
